@@ -15,6 +15,13 @@ from . import heapops as H
 UNROLL_LIMIT = 24
 
 
+def _ghost_sort(spec: str):
+    from .smt import Val as _V
+    d, r = spec.replace(" ", "").split("->")
+    m = {"int": INT, "val": _V, "bool": z3.BoolSort()}
+    return z3.ArraySort(m[d], m[r])
+
+
 class StmtMixin:
     def exec_block(self, stmts, fr: Frame):
         for s in stmts:
@@ -251,7 +258,8 @@ class StmtMixin:
         if isinstance(node, ast.While):
             text = "while " + ast.unparse(node.test)
         else:
-            text = f"for {ast.unparse(node.target)} in {ast.unparse(node.iter)}"
+            tgt = ", ".join(ast.unparse(e) for e in node.target.elts) if isinstance(node.target, ast.Tuple) else ast.unparse(node.target)
+            text = f"for {tgt} in {ast.unparse(node.iter)}"
         n = fr.loop_seen.get((text, id(node)))
         if n is None:
             k = sum(1 for (t, _i) in fr.loop_seen if t == text)
@@ -336,6 +344,8 @@ class StmtMixin:
         # 1. invariant holds on entry (idx = 0)
         idx0 = SV(mk_int(0), Ty("int"))
         fr.locals["idx"] = idx0
+        for gname, gsort in spec.ghost.items():
+            st.ghost[gname] = SV(st.fresh("g_" + gname, _ghost_sort(gsort)), Ty("zarray"))
         for k, (lab, f) in enumerate(eval_spec_list(self, spec.invariant, fr)):
             st.check(f"{base}/inv-init:{lab}", f, "loop-invariant-init", self.witness_fn(fr))
         # 2. havoc what the body writes
@@ -350,12 +360,18 @@ class StmtMixin:
                 pass
         fields = loop_write_set(self, node.body, fr)
         havoc_written(self, fields, spec.frame, fr, entry_alloc)
+        for gname, gsort in spec.ghost.items():
+            st.ghost[gname] = SV(st.fresh("g_" + gname, _ghost_sort(gsort)), Ty("zarray"))
         idx = st.fresh("idx", INT)
         st.assume(idx >= 0)
         if is_for:
             st.assume(idx <= n)
         fr.locals["idx"] = SV(mk_int(idx), Ty("int"))
         fr.loop_entry = (entry_heap, entry_locals)
+        # A-TYPES: annotated container locals keep their element types across the havoc
+        for name, lv in list(fr.locals.items()):
+            if lv.term is not None and lv.ty is not None and lv.ty.name in ("list", "dict") and lv.ty.args:
+                self.assume_type(lv.term, lv.ty, fr)
         for lab, f in eval_spec_list(self, spec.invariant, fr):
             st.assume(f)
         # 3. one arbitrary iteration, or exit
@@ -378,6 +394,13 @@ class StmtMixin:
                 except ContinueEx:
                     pass
                 fr.locals["idx"] = SV(mk_int(idx + 1), Ty("int"))
+                for gname, (kexpr, vexpr) in spec.ghost_update.items():
+                    arr = st.ghost[gname].term
+                    kv, vv = self.spec_eval(kexpr, fr), self.spec_eval(vexpr, fr)
+                    key = IV(kv.term) if arr.sort().domain() == INT else self.need_term(kv)
+                    rs = arr.sort().range()
+                    val = IV(vv.term) if rs == INT else (self.truthy(vv) if rs == z3.BoolSort() else self.need_term(vv))
+                    st.ghost[gname] = SV(z3.Store(arr, key, val), Ty("zarray"))
                 if spec.ghost_step is not None:
                     from .api import Ctx
                     spec.ghost_step(Ctx(self, fr, "loop", node))
